@@ -40,6 +40,16 @@ CLAIMED = {
         technique='deterministic simulation (history engine): seeded histories of valid and schema-invalid writes through every write path on typed objects/lists/dicts, with rejected-element-in-batch faults and allow_partial scopes; schema invariant judged by the bound specs after every step, failure atomicity of rejected writes',
         text='Seeded exploration of histories on typed trees (ranges, enums, nested dict/list/tuple/object/union specs, noneable/default/frozen, dynamic keys, min/max sizes). After every step, successful or failed, every typed node must hold only declared keys, values its own spec accepts and maps to itself (plus an independent check of primitive constraints), required fields unless explicitly partial, frozen values, list lengths within bounds; a rejected single write must leave the forest unchanged; class-level defaults must be unchanged at the end.',
         note='Trusted: the value specs as judges of stored values (cross-checked for Int/Str/Enum/Bool/Object from public attributes); the harness tracks which trees were explicitly made partial. Type checking ON as the property states. Batches may keep their earlier valid elements.'),
+    'C07': dict(
+        engine='symtree', design='§2',
+        technique='deterministic simulation (history engine): clone/copy/deepcopy operations inside seeded mutation histories with interruption faults; clone fidelity at the clone step, non-interference of every non-targeted root (contents and identity map) after every later step',
+        text='Seeded exploration: clones (deep, shallow, copy.copy, copy.deepcopy) are taken at arbitrary nodes in the middle of mutation histories and both copies keep being mutated. At the clone step: equality both ways, same class, same schema binding, same partial/sealed/accessor-writable flags on the cloned value, well-formed tree, no shared symbolic node, original untouched. After every later step: every root the step did not target keeps its contents and its identity map, and the forest stays well-formed.',
+        note='Trusted: JSON-like snapshots through the symbolic read API and identity maps. Flags are compared on the cloned value itself (flags of nested nodes are derived). Type checking stays on (with it off typed containers hold anything and the library\'s own getters assert).'),
+    'C08': dict(
+        engine='symtree', design='§2',
+        technique='deterministic simulation (history engine): seal/unseal/accessor-flag operations and 0-3 nested scoped overrides (True/False/None) around every mutator, executed against an unsealed deep copy as reference executor to decide which containers the call would change',
+        text='Seeded exploration of histories mixing per-object flags, nested as_sealed / allow_writable_accessors scopes and every mutator of the list/dict/object API at the protected node and below it. The same call runs on an unprotected deep copy: if it would change a container that is treated as sealed (scope over flag, None defers) the real call must raise WritePermissionError and the tree must be unchanged; accessor-disabled values must refuse []=/attribute/del while rebind works; nothing unprotected may be refused; seal/unseal must reach every descendant.',
+        note='Trusted: the precedence rule (scope over flag, None defers) and the reference copy. Three listed known findings, all about states or scopes the library handles inconsistently (mixed seal states, construction under allow_writable_accessors(False)); their signatures are tagged so other violations are still reported.'),
 }
 
 NOT_APPLICABLE = {}
